@@ -20,11 +20,11 @@ import (
 // Anything else is a violation (an order-sensitive sink reached in map order).
 
 type orderSite struct {
-	fi    *FuncInfo
-	br    bodyRef
-	node  ast.Node // RangeStmt or CallExpr
-	what  string
-	body  *ast.BlockStmt // loop body or callback body (nil if callback not a literal)
+	fi                 *FuncInfo
+	br                 bodyRef
+	node               ast.Node // RangeStmt or CallExpr
+	what               string
+	body               *ast.BlockStmt // loop body or callback body (nil if callback not a literal)
 	rangeKey, rangeVal types.Object
 	keysObj            types.Object // MapKeys() result variable (must be sorted before use)
 }
@@ -536,7 +536,6 @@ func sortedAfter(info *types.Info, g *FCFG, site ast.Node, obj types.Object) boo
 	})
 	return !found
 }
-
 
 // R-ORDER-ARG: every call of order.RangeFields / order.RangeEntries made by an
 // output-producing function passes an order that is non-nil whenever
